@@ -189,7 +189,13 @@ Definition run_reload (x : sx) : sx :=
     match rl_fetch d0 with
     | Some f =>
       match start dest_ok size_of f with
-      | Some st => L (rl_observe st probe ids origin :: rl_steps dest_ok size_of st rest probe ids origin)
+      | Some st =>
+        let final := fold_left (fun st d => reload dest_ok size_of st (rl_fetch d)) rest st in
+        (* every cache in force at the end is held to its size limit, as after a restart *)
+        let limits := L [A (bytes "limits"); L (map (fun id => L [A id; I 1])
+                          (sort_strs (filter (fun id => existsb (fun c => str_eqb (sc_id c) id) (rs_caches final)
+                                                        && existsb (fun r => str_eqb (r_cache r) id) (rs_rules final)) ids)))] in
+        L (rl_observe st probe ids origin :: rl_steps dest_ok size_of st rest probe ids origin ++ [limits])
       | None => L [A (bytes "start-rejected")]
       end
     | None => L [A (bytes "start-rejected")]
@@ -228,6 +234,9 @@ Fixpoint walk_reload (dest_ok : str -> bool) (size_of : str -> option Z) (seen :
   end.
 
 Definition mon_C19_reload (x o : sx) : sx :=
+  let over := existsb (fun ob => str_eqb (sx_str (sx_nth 0 ob)) (bytes "limits")
+                                 && existsb (fun e => negb (sx_bool (sx_nth 1 e))) (sx_list (sx_nth 1 ob))) (sx_list o) in
+  if over then verdict false "after the reloads a cache in force is not held to its size limit (as it would be after a restart)" else
   let bad := to_strs (sx_nth 3 x) in
   walk_reload (fun s => negb (str_in bad s)) (size_table (sx_nth 4 x)) [] (sx_list (sx_nth 1 x)) (sx_list o)
               (sx_nth 0 (sx_nth 2 x)) (to_strs (sx_nth 5 x)) (sx_str (sx_nth 7 x)) 0.
@@ -238,3 +247,9 @@ Definition run_swap (x : sx) : sx := L [I (8 * sx_int (sx_nth 1 x)); I 0].
 Definition mon_C19_swap (x o : sx) : sx :=
   if Z.eqb (sx_int (sx_nth 1 o)) 0 then v_ok
   else verdict false "a request was handled under two versions of the rules (flavours of one, destination of the other)".
+
+(* what is compared of a reload run: the states, and for the size check whether each cache stayed within its limit *)
+Definition proj_reload (x o : sx) : sx :=
+  L (map (fun ob => if str_eqb (sx_str (sx_nth 0 ob)) (bytes "limits")
+                    then L [A (bytes "limits"); L (map (fun e => L [sx_nth 0 e; of_bool (sx_int (sx_nth 1 e) <=? 65536)]) (sx_list (sx_nth 1 ob)))]
+                    else ob) (sx_list o)).
